@@ -158,6 +158,61 @@ def equivariance_case(case):
     return {"v": v[:4], "nt": [case], "stats": {"evals": nev}, "sample": {"target": where["target"], "P": P, "affinity": tag}}
 
 
+def large_inv_case(case):
+    """The same invariances on hundreds to thousands of samples (sizes with a remainder modulo every power of two up to 2048): reversal,
+    rotation by one, one fixed shuffle and a swap of the two halves of the sample order; reversal and rotation of the clusters; bounds."""
+    ti, K, n, tag, seed = case
+    target, dist = TARGETS[ti]
+    cls, ovo = target
+    mode = "ovo" if ovo else "ova"
+    rs = np.random.RandomState(60_000 + 11 * seed + n + K)
+    X = rs.normal(size=(n, 2))
+    if dist == "mmd":
+        kw, _, A = aff.kernel_reference(tag, X, seed)
+    elif dist == "wasserstein":
+        kw, _, A = aff.metric_reference(tag, X, seed)
+    else:
+        kw, A = {}, None
+    g = _gemini(target, kw)
+    hard = np.eye(K)[rs.choice(K, size=n, p=rs.dirichlet(np.ones(K) * 2))]
+    mats = [softmax(rs.normal(size=(n, K)) * 1.5), 0.9 * hard + 0.1 / K, hard]
+    perms = {"reverse": np.arange(n)[::-1], "rotate_by_one": np.roll(np.arange(n), 1), "shuffle": rs.permutation(n),
+             "swap_halves": np.roll(np.arange(n), n // 2)}
+    where = dict(target=f"{cls}(ovo={ovo})", dist=dist, K=K, n=n, affinity=tag)
+    lb = ref.lower_bound(dist)
+    v, nev = [], 0
+    for P in mats:
+        with np.errstate(all="ignore"):
+            s0 = float(g(P.copy(), A))
+        sl = _slack(dist, mode, P, A) if dist == "mmd" else 0.0
+        tol = 1e-9 * max(1.0, abs(s0)) + sl
+        nev += 1
+        if not np.isfinite(s0):
+            v.append(violation("nonfinite_on_closed_simplex", {"score": s0, "n": n, "K": K}, **where))
+            continue
+        if s0 < lb - tol or (dist in ("tv", "hellinger") and s0 > 1 + tol):
+            v.append(violation("below_lower_bound" if s0 < lb else "above_one", {"score": s0, "bound": lb}, **where))
+        for name, sig in perms.items():
+            with np.errstate(all="ignore"):
+                s1 = float(g(P[sig].copy(), _permA(A, sig)))
+            nev += 1
+            if not abs(s1 - s0) <= tol:
+                v.append(violation("sample_permutation_changes_score", {"sigma": name, "score": s0, "permuted": s1, "n": n, "K": K}, **where))
+        for name, tau in (("reverse", np.arange(K)[::-1]), ("rotate_by_one", np.roll(np.arange(K), 1))):
+            with np.errstate(all="ignore"):
+                s1 = float(g(P[:, tau].copy(), A))
+            nev += 1
+            if not abs(s1 - s0) <= tol:
+                v.append(violation("cluster_permutation_changes_score", {"tau": name, "score": s0, "permuted": s1, "n": n, "K": K}, **where))
+    Pc = np.tile(softmax(rs.normal(size=(1, K))), (n, 1))
+    with np.errstate(all="ignore"):
+        sc = float(g(Pc, A))
+    nev += 1
+    if not abs(sc - lb) <= 1e-9 + (1e-6 * np.sqrt(np.abs(A).max()) if dist == "mmd" else 0.0) + (1e-9 * np.abs(A).max() if dist == "wasserstein" else 0.0):
+        v.append(violation("nonzero_for_sample_independent_predictions", {"score": sc, "bound": lb, "n": n, "K": K}, **where))
+    return {"v": v[:8], "nt": [case], "stats": {"evals": nev}, "sample": {"target": where["target"], "K": K, "n": n, "affinity": tag}}
+
+
 def explorers(tier, seed):
     thorough = tier == "thorough"
     shapes = [(1, 1, 2), (1, 3, 2), (2, 1, 2), (2, 2, 2), (2, 3, 2), (2, 4, 2), (2, 2, 4), (2, 3, 4), (3, 1, 2), (3, 2, 2), (3, 3, 2), (3, 2, 4), (4, 2, 2), (5, 2, 2)]
@@ -180,7 +235,17 @@ def explorers(tier, seed):
             for tag in tags:
                 for t in range(3 if thorough else 2):
                     c3.append((ti, K, n, tag, t, seed))
+    c4 = []
+    for ti, (target, dist) in enumerate(TARGETS):
+        big = {"wasserstein": [(3, 301)] + ([(4, 700)] if thorough else []), "mmd": [(3, 700), (12, 601)] + ([(4, 1301)] if thorough else [])}.get(
+            dist, [(3, 700), (32, 1500), (64, 701), (5, 2049)] + ([(2, 1301), (40, 3001), (3, 4099)] if thorough else []))
+        tags = {"mmd": ["linear", "rbf_g"], "wasserstein": ["euclidean"]}.get(dist, ["none"])
+        c4 += [(ti, K, n, tag, seed) for K, n in big for tag in tags]
     return [
+        Explorer("large_sample_invariance", "props.c13", "large_inv_case", c4, chunk=1, floor=20, case_timeout=1500,
+                 rule="13 class/flag targets on hundreds to thousands of samples and up to 64 clusters (sizes leave a remainder modulo every power of two "
+                      "up to 2048): interior, near-hard and hard prediction matrices x {reversal, rotation by one, fixed shuffle, swapped halves} of the "
+                      "samples (affinity permuted alike) x {reversal, rotation} of the clusters, bounds, zero for sample-independent predictions"),
         Explorer("invariance_and_bounds", "props.c13", "inv_block", c1, chunk=4, floor=500,
                  rule="ALL prediction matrices with rows in the closed-simplex lattice of denominator q (one-hot rows included) for the listed "
                       "(K,n,q) x ALL sample permutations x ALL cluster permutations x appended empty cluster x bounds/finiteness, for the 13 "
